@@ -600,11 +600,15 @@ func (w *world) observe(what string) {
 	w.cbSeen = len(cbs)
 
 	// new events
+	newRoleEv := 0
 	for k := w.evSeen; k < len(evs); k++ {
 		e := evs[k]
 		w.obs["event_"+string(e.typ)]++
 		switch e.typ {
+		case ha.FailoverEventRoleChanged:
+			newRoleEv++
 		case ha.FailoverEventCompleted:
+			newRoleEv++
 			w.completedEv++
 		case ha.FailoverEventFailbackCompleted:
 			w.fbCompleteEv++
@@ -614,7 +618,30 @@ func (w *world) observe(what string) {
 	}
 	w.evSeen = len(evs)
 
-	if role != w.role {
+	// --- role changes in this window (previous observation, now]. Polling sees the net change only;
+	// a round trip within one window (failback and forced promotion at the same virtual instant) is
+	// reconstructed from the callback log, and believed only if the controller also emitted
+	// role-change events in the window.
+	type flip struct {
+		to ha.Role
+		lo time.Duration
+	}
+	var flips []flip
+	cur := w.role
+	var sim []flip
+	for k := cbFrom; k < len(cbs); k++ {
+		if r := cbs[k]; !r.fail && r.role != cur {
+			sim = append(sim, flip{r.role, r.at})
+			cur = r.role
+		}
+	}
+	switch {
+	case cur == role && (role != w.role || len(sim) == 0 || newRoleEv > 0):
+		flips = sim
+		if len(sim) > 1 {
+			w.obs["windows_with_several_role_changes"]++
+		}
+	case role != w.role:
 		// --- clause: role changes only after a callback invocation returned nil
 		idx, failed := -1, false
 		for k := cbFrom; k < len(cbs); k++ {
@@ -636,21 +663,22 @@ func (w *world) observe(what string) {
 		} else {
 			lo = cbs[idx].at
 		}
-		if w.role == ha.RoleStandby && role == ha.RoleActive {
+		flips = []flip{{role, lo}}
+	}
+	for _, f := range flips {
+		if f.to == ha.RoleActive {
 			w.promotions++
 			w.obs["promotions_observed"]++
-			w.judgePromotion(lo, now, rdown)
-			w.ffCredit = 0
-			w.fbCredit = 0
-		} else if w.role == ha.RoleActive && role == ha.RoleStandby {
+			w.judgePromotion(f.lo, now, rdown)
+			w.ffCredit = 0 // a ForceFailover justifies one promotion
+		} else {
 			w.failbacks++
 			w.obs["failbacks_observed"]++
-			w.judgeFailback(lo, now, monHealthy)
+			w.judgeFailback(f.lo, now, monHealthy)
 			w.fbCredit = 0
-			w.ffCredit = 0
 		}
-		w.role = role
 	}
+	w.role = role
 
 	// --- clause: #completed events = #promotions, each exactly once
 	if w.completedEv != w.promotions {
